@@ -1,6 +1,7 @@
 (* C13 - property theorems only.  Each is closed by [exact] of a lemma of the
    Proofs files and followed by Print Assumptions. *)
-From VF.C13 Require Import Model Proofs Proofs2.
+From VF.C13 Require Import Model Proofs Proofs2 Proofs3 Proofs5 Proofs6 Proofs7 Proofs8.
+From Coq Require Import Sorted.
 From VF.Lib Require Import Keccak.
 Local Open Scope N_scope.
 
@@ -43,6 +44,73 @@ Proof.
 Qed.
 Print Assumptions C13_history_independent.
 
+(* Iteration returns exactly the surviving pairs: a pair is produced iff the
+   reference map holds it. *)
+Theorem C13_iter_exact :
+  forall ops, Forall op_ok ops ->
+  forall k v, bytes_ok k -> (In (k, v) (iterate (run ops)) <-> m_run ops k = Some v).
+Proof. exact iterate_exact. Qed.
+Print Assumptions C13_iter_exact.
+
+(* Order: the hex keys (nibbles followed by the terminator 16) come out strictly
+   ascending for every trie (hence no key twice); and when no stored key is a
+   prefix of another the byte keys themselves are strictly ascending
+   (bytes.Compare). *)
+Theorem C13_iter_sorted :
+  (forall t, StronglySorted lex_lt (map fst (leaves t []))) /\
+  (forall ops, Forall op_ok ops ->
+     (forall a b, m_run ops a <> None -> m_run ops b <> None -> bytes_ok a -> bytes_ok b ->
+                  a <> b -> ~ is_prefix a b) ->
+     StronglySorted lex_lt (map fst (iterate (run ops)))).
+Proof. exact (conj iterate_sorted iterate_bytes_sorted). Qed.
+Print Assumptions C13_iter_sorted.
+
+(* Proof completeness.  For every hash function with 32-byte output, every
+   non-empty trie reachable by a history with keys < 2^30 and values < 2^32
+   bytes, and every key: the node list produced by Prove verifies against the
+   root to exactly the reference map's answer (value or absence) - provided the
+   elements of this one proof do not collide with each other under H. *)
+Theorem C13_proof_complete :
+  forall (H : bytes -> bytes), (forall x, length (H x) = 32%nat) ->
+  forall ops k, Forall op_ok ops -> Forall op_small ops -> bytes_ok k -> run ops <> Empty ->
+  (forall a b, In a (prove H (run ops) k 0) -> In b (prove H (run ops) k 0) -> H a = H b -> a = b) ->
+  verify_proof H (root_hash H (run ops)) k (prove H (run ops) k 0) = ans (m_run ops k).
+Proof. exact proof_complete_reachable. Qed.
+Print Assumptions C13_proof_complete.
+
+(* Proof soundness.  Whatever list of byte strings is offered as a proof
+   (corrupted, substituted, foreign ...), verification against the root of a
+   reachable non-empty trie gives the reference map's answer, or an error - or
+   two different byte strings with the same hash are exhibited.  In
+   particular no other value, no false absence and no VPanic (the model's
+   rendering of the Go panic in compactToHex) without a collision.  The proof
+   set is addressed by content (each element is found under its own hash), as
+   the callers of VerifyProof build it. *)
+Theorem C13_proof_sound :
+  forall (H : bytes -> bytes), (forall x, length (H x) = 32%nat) ->
+  forall ops k proof, Forall op_ok ops -> Forall op_small ops -> bytes_ok k -> run ops <> Empty ->
+  let r := verify_proof H (root_hash H (run ops)) k proof in
+  r = ans (m_run ops k) \/ r = VErr \/ (exists a b : bytes, a <> b /\ H a = H b).
+Proof. exact proof_sound_reachable. Qed.
+Print Assumptions C13_proof_sound.
+
+(* Commit and re-open.  Committing a reachable trie stores its root node and
+   every node whose encoding is >= 32 bytes under their hashes; loading the
+   root hash back from exactly that store (trie.New + resolving every hash
+   node) rebuilds the same trie, so every lookup still agrees with the
+   reference map - unless two stored blobs collide under H.  (The root hash
+   must differ from the constant the code reserves for the empty trie.) *)
+Theorem C13_commit_reopen :
+  forall (H : bytes -> bytes), (forall x, length (H x) = 32%nat) ->
+  forall ops f, Forall op_ok ops -> Forall op_small ops ->
+  let t := run ops in
+  (forall h b1 b2, In (h, b1) (commit H t) -> In (h, b2) (commit H t) -> b1 = b2) ->
+  root_hash H t <> empty_root -> (2 * height t + 1 <= f)%nat ->
+  reopen f (commit H t) (root_hash H t) = t /\
+  forall k, bytes_ok k -> t_get (reopen f (commit H t) (root_hash H t)) k = m_run ops k.
+Proof. exact commit_reopen_reachable. Qed.
+Print Assumptions C13_commit_reopen.
+
 (* ---- non-vacuity ---------------------------------------------------------- *)
 
 Definition ex_ops1 : list kvop :=
@@ -77,3 +145,27 @@ Example C13_nonvacuous_history :
      244;199;186;58;93;234;149;254;164;205;110;124;58;17;104;211].
 Proof. vm_compute. repeat split; reflexivity. Qed.
 Print Assumptions C13_nonvacuous_history.
+
+(* the proof theorems are not vacuous: Keccak-256 has 32-byte output on the
+   example, the example history is small, a proof with three nodes (one of
+   them embedded in its parent) verifies, and a tampered one is rejected *)
+Fixpoint ops_smallb (ops : list kvop) : bool :=
+  match ops with
+  | [] => true
+  | KUpdate k v :: r => (len k <? 1073741824) && (len v <? B32) && ops_smallb r
+  | KDelete _ :: r => ops_smallb r
+  end.
+
+Example C13_nonvacuous_proofs :
+  let t := run ex_ops1 in
+  let dog := [100;111;103] in
+  let p := prove keccak256 t dog 0 in
+  ops_smallb ex_ops1 = true /\ t <> Empty /\ length p = 3%nat /\
+  verify_proof keccak256 (root_hash keccak256 t) dog p = VVal [112;117;112;112;121] /\
+  verify_proof keccak256 (root_hash keccak256 t) [100;111] (prove keccak256 t [100;111] 0) = VAbsent /\
+  verify_proof keccak256 (root_hash keccak256 t) dog (firstn 2 p) = VErr /\
+  length (commit keccak256 t) = 3%nat /\
+  reopen 20 (commit keccak256 t) (root_hash keccak256 t) = t /\
+  map fst (iterate t) = [[100;111;101]; [100;111;103;103;108;101;115;119;111;114;116;104]; [100;111;103]].
+Proof. vm_compute. repeat split; try reflexivity. discriminate. Qed.
+Print Assumptions C13_nonvacuous_proofs.
